@@ -16,6 +16,7 @@ def main():
             shutil.rmtree(scratch, ignore_errors=True)
             os.makedirs(scratch)
             subprocess.run(["cp", "-r", "/repo/pyerrors", scratch + "/pyerrors"], check=True)
+            subprocess.run(["cp", "-r", "/repo/examples", scratch + "/examples"], check=True)     # json_schema.json
             p = os.path.join(scratch, m["file"])
             s = open(p).read()
             if s.count(m["old"]) != 1:
